@@ -494,7 +494,7 @@ def replay(run, path):
         if not w:
             print("replay: no concrete input recorded (%s)" % json.dumps(v.get("broken"))[:400])
             continue
-        keys = [k for k in ("kind", "task", "config", "tn", "dir", "sacch", "channel", "frame", "layout_index", "fn") if k in w]
+        keys = [k for k in ("kind", "task", "config", "tn", "dir", "sacch", "channel", "frame", "layout_index", "last_proc", "fn") if k in w]
         if w.get("kind") in ("chan-state", "consumer-lookup", "subst"):
             hit = c11_sched.replay_witness(run, tables(run), w) or []
         elif w.get("kind") == "fw-runtime":
